@@ -26,10 +26,11 @@ type LocalServer struct {
 
 type W struct {
 	*world.World
-	Servers     []LocalServer
-	LocalClient api.FeatureLocalInterface // Measurement client on entity [1]
-	Entity      api.EntityLocalInterface
-	Entity2     api.EntityLocalInterface
+	Servers      []LocalServer
+	LocalClient  api.FeatureLocalInterface // Measurement client on entity [1]
+	LocalClient2 api.FeatureLocalInterface // LoadControl client on entity [1]
+	Entity       api.EntityLocalInterface
+	Entity2      api.EntityLocalInterface
 }
 
 var serverSpecs = []struct {
@@ -72,6 +73,7 @@ func New(n int) *W {
 		w.Servers = append(w.Servers, LocalServer{F: f, Type: s.ft, Writable: s.rw, ReadOnly: s.ro})
 	}
 	w.LocalClient = w.AddLocalFeature(le, world.FeatSpec{Type: model.FeatureTypeTypeMeasurement, Role: model.RoleTypeClient})
+	w.LocalClient2 = w.AddLocalFeature(le, world.FeatSpec{Type: model.FeatureTypeTypeLoadControl, Role: model.RoleTypeClient})
 	// a second entity with another Measurement server: one client can hold several bindings / subscriptions
 	le2 := w.AddLocalEntity([]uint{2}, model.EntityTypeTypeEVSE, time.Second)
 	w.Entity2 = le2
